@@ -5,6 +5,15 @@ mod aead;
 mod c01;
 mod c02;
 mod c03;
+mod c05;
+mod c06;
+mod c07;
+mod c08;
+mod c09;
+mod c10;
+mod c11;
+mod c12;
+mod c13;
 #[cfg(feature = "nightly")]
 mod pm;
 
@@ -21,6 +30,15 @@ fn replay(path: &str) -> i32 {
         match check {
             "C01.aead" => c01::replay(case),
             "C02.fault" => c02::replay(case),
+            "C05.x25519" => c05::replay(case),
+            "C06.ed25519" => c06::replay(case),
+            "C07.prim" => c07::replay(case),
+            "C08.chunk" => c08::replay(case),
+            "C12.kdf" => c12::replay(case),
+            "C09.argon2" => c09::replay(case),
+            "C10.str" => c10::replay(case),
+            "C11.rng" => c11::replay(case),
+            "C13.keys" => c13::replay(case),
             "C03.model" => c03::replay_model(case),
             "C03.sweep" => c03::replay_sweep(case),
             #[cfg(feature = "nightly")]
@@ -62,6 +80,15 @@ fn main() {
         "C02" => c02::run(c02::Mode::Tamper),
         "C17" => c02::run(c02::Mode::Leak),
         "C03" => c03::run(),
+        "C05" => c05::run(),
+        "C06" => c06::run(),
+        "C07" => c07::run(),
+        "C08" => c08::run(),
+        "C09" => c09::run(),
+        "C10" => c10::run(),
+        "C11" => c11::run(),
+        "C12" => c12::run(),
+        "C13" => c13::run(),
         #[cfg(feature = "nightly")]
         "pmworker" => pm::worker(&args[2..]),
         #[cfg(feature = "nightly")]
